@@ -312,6 +312,9 @@ def main(argv):
         extra = f"(generated cases matching this run: {known_hits.get(sig, 0)}; replay {'still fails' if st == 'fail' else st})"
         print(f"KNOWN-FINDING: property={check_id} {f['text']} {extra}")
 
+    if not samples:
+        for pname, f in gen_fails[:3]:
+            samples.append({"part": pname, "case": f["case"], "failed": f.get("msg")})
     wall = time.time() - t0
     assumptions = list(getattr(mod, "ASSUMPTIONS", []))
     assumptions.append("tree under check: " + json.dumps(info, sort_keys=True))
